@@ -21,6 +21,9 @@ def toUsize? (i : Int) : Option Nat := if 0 ≤ i then some i.toNat else none
 /-- checked `usize - usize` -/
 def usub? (a b : Nat) : Option Nat := if b ≤ a then some (a - b) else none
 
+/-- `a >> s` on an unsigned integer of width `w`: a shift amount `≥ w` panics in a debug build (and is masked in release) -/
+def ushr? (w a s : Nat) : Option Nat := if s < w then some (a >>> s) else none
+
 /-- `Iterator::rposition`: index (from the front) of the last element satisfying `p` -/
 def rposition (p : α → Bool) : List α → Option Nat
   | [] => none
